@@ -370,13 +370,13 @@ var checks = []Check{
 	{
 		Property: "C12",
 		Harnesses: []Harness{
-			{Dir: "bsonkit", Func: "H_C12_antisym", Quick: P{"tags": TScalars, "depth": 0}, Thorough: P{"tags": TScalars | TArray | (TNull|TInt32|TString)<<16, "depth": 1}},
+			{Dir: "bsonkit", Func: "H_C12_antisym", Quick: P{"tags": TScalars, "depth": 0}, Thorough: P{"tags": TAll | (TNull|TInt32|TDouble|TString)<<16, "depth": 1}},
 			{Dir: "bsonkit", Func: "H_C12_antisym", Quick: P{"tags": TNull | TInt32 | TString | TArray | TDoc, "depth": 1}, Thorough: P{"tags": TNull | TInt32 | TDouble | TString | TBool | TArray | TDoc, "depth": 1},
 				Note: "containers: documents/arrays that differ late or in length"},
 			{Dir: "bsonkit", Func: "H_C12_containers", Quick: P{"maxlen": 2}, Thorough: P{"maxlen": 3, "ctags": TNull | TInt32 | TDouble | TString | TBool}},
 			{Dir: "bsonkit", Func: "H_C12_class", Quick: P{"tags": TAll, "depth": 1}, Thorough: P{"tags": TAll, "depth": 1}},
 			{Dir: "bsonkit", Func: "H_C12_exact", Quick: P{}, Thorough: P{}},
-			{Dir: "bsonkit", Func: "H_C12_trans", Quick: P{"tags": TNull | TNumbers | TString | TBool, "depth": 0}, Thorough: P{"tags": TScalars, "depth": 0}},
+			{Dir: "bsonkit", Func: "H_C12_trans", Quick: P{"tags": TNull | TNumbers | TString | TBool, "depth": 0}, Thorough: P{"tags": TNull | TNumbers | TString | TBool | TArray | (TNull|TInt32|TDouble|TString)<<16, "depth": 1}},
 		},
 		Assumptions: commonAssumptions,
 		Bounds: []string{"scalars: every value of every supported non-decimal type (int32/int64/double full range incl. NaN, +-Inf, +-0; strings from pool {\"\",a,b}; binary length <= 2; ObjectID bytes 0 and 11 symbolic); containers: length <= 2, keys from {a,b}, nesting depth as stated per harness",
